@@ -133,6 +133,21 @@ def kdriver(stats):
             prove("result Ok with output='-' => all L bytes reached stdout through checked writes", pc, z3.Implies(out_sel == 0, z3.And(checked, tot_out == L)), events)
         else:
             prove("result Err after a successful compile only when an I/O operation failed", pc, z3.BoolVal(any(e[0] in ("write_failed", "create_failed") for e in events)), events)
+    # reachability witnesses: the obligations above are vacuous unless each kind of outcome is actually reached for each output mode
+    def reach(name, want):
+        hit = False
+        for pc, kind, r, events in results:
+            if not want(kind, r, events): continue
+            s = z3.Solver(); s.add(base); s.add(pc)
+            if stats.check(s) == z3.sat: hit = True; break
+        checks.append({"obligation": "witness: " + name, "verdict": "holds" if hit else "unreached", "events": []})
+    isok = lambda kind, r: kind == "ok" and r.disc == 0
+    iserr = lambda kind, r: kind == "ok" and r.disc != 0
+    reach("Ok with a file written", lambda k, r, ev: isok(k, r) and any(e[0] == "write" and "File" in e[2] for e in ev))
+    reach("Ok with stdout written", lambda k, r, ev: isok(k, r) and any(e[0] == "write" and "stdout" in e[2] for e in ev))
+    reach("Err from the compiler", lambda k, r, ev: iserr(k, r) and not any(e[0] == "compile_wrote" for e in ev))
+    reach("Err from a failed write", lambda k, r, ev: iserr(k, r) and any(e[0] == "write_failed" for e in ev))
+    reach("create fails (Err or panic)", lambda k, r, ev: any(e[0] == "create_failed" for e in ev))
     return {"paths": len(results), "steps": ex.steps, "queries": ex.queries, "checks": checks, "art": art}
 
 
@@ -286,12 +301,14 @@ def run(tier):
     t0 = time.time(); stats = common.SolverStats(); fnd = common.Findings("C20")
     kd = kdriver(stats)
     for c in kd["checks"]:
+        if c["verdict"] == "unreached": fnd.undecided("K-driver: %s is not reached by any explored path (the obligations would be vacuous)" % c["obligation"]); continue
         if c["verdict"] != "holds": fnd.report("driver:" + re.sub(r"[^a-zA-Z ]", "", c["obligation"])[:50].strip().replace(" ", "_"), "%s: %s; events %s %s" % (c["obligation"], c["verdict"], c["events"], c.get("model", "")), {"obligation.txt": str(c)})
     try: ke = kemit(stats)
     except common.Inconclusive as e:
         fnd.undecided(str(e)); ke = {"paths": 0, "steps": 0, "checks": [], "writes": 0}
     except Exception as e:
         fnd.undecided("K-emit could not run (%s: %s)" % (type(e).__name__, str(e)[:200])); ke = {"paths": 0, "steps": 0, "checks": [], "writes": 0}
+    if ke["paths"] and ke["writes"] == 0: fnd.undecided("K-emit: generate performed no write call (vacuous)")
     for c in ke["checks"]:
         if c["verdict"] != "holds": fnd.report("emitter:unchecked-short-write", "%s: %s %s" % (c["obligation"], c["verdict"], c.get("what", "")), {"obligation.txt": str(c)})
     nat = native(kd["art"], tier, stats, fnd)
